@@ -19,10 +19,11 @@ type Env struct {
 	vars       map[string]Binding
 	st         *State
 	old        *State
-	resolve    func(name string) (Term, Ty, bool)
+	resolve func(name string, st *State) (Term, Ty, bool)
 	macroDepth int
 	freshFloor string
 	reidx      map[string]reidxInfo
+	resolveAddr func(name string) (string, types.Type, bool)
 }
 
 // reidxInfo: bound variable re-indexed to the absolute element index of one slice (DESIGN §2.13 rule 8).
@@ -179,7 +180,7 @@ func (e *Env) trIdent(name string) (Term, Ty) {
 		return b.T, b.Ty
 	}
 	if (name == "$i" || strings.HasPrefix(name, "$r")) && e.resolve != nil {
-		if t, ty, ok := e.resolve(name); ok {
+		if t, ty, ok := e.resolve(name, e.st); ok {
 			return t, ty
 		}
 	}
@@ -193,7 +194,7 @@ func (e *Env) trIdent(name string) (Term, Ty) {
 		return Term{sel(h.S, "Nil"), es}, g.W.resolveType(gf.Pkg, gf.Type, g)
 	}
 	if e.resolve != nil {
-		if t, ty, ok := e.resolve(name); ok {
+		if t, ty, ok := e.resolve(name, e.st); ok {
 			return t, ty
 		}
 	}
@@ -267,6 +268,11 @@ func (e *Env) addrOf(x Expr) (string, types.Type) {
 			}
 		}
 	case *EIdent:
+		if e.resolveAddr != nil {
+			if a, t, ok := e.resolveAddr(x.Name); ok {
+				return a, t
+			}
+		}
 		// a global variable
 		if p := g.W.byPath[e.pkg]; p != nil {
 			if v, ok := p.Types.Scope().Lookup(x.Name).(*types.Var); ok {
@@ -371,7 +377,7 @@ func (e *Env) trSel(x *ESel) (Term, Ty) {
 		if _, shadow := e.vars[id.Name]; !shadow {
 			isLocal := false
 			if e.resolve != nil {
-				if _, _, ok := e.resolve(id.Name); ok {
+				if _, _, ok := e.resolve(id.Name, e.st); ok {
 					isLocal = true
 				}
 			}
@@ -444,6 +450,9 @@ func (e *Env) trIndex(x *EIndex) (Term, Ty) {
 	}
 	if strings.HasPrefix(s.Sort, "(Array ") {
 		es := arrayElemSort(s.Sort)
+		if ty.Elem != nil {
+			return Term{sel(s.S, i.S), es}, *ty.Elem
+		}
 		return Term{sel(s.S, i.S), es}, Ty{Spec: es}
 	}
 	g.fail("cannot index %s (type %s)", x.X, ty)
@@ -917,7 +926,7 @@ func (e *Env) trCall(x *ECall) (Term, Ty) {
 		s, _ := arg(0)
 		g.declSort("Bytes")
 		g.sc.DeclareOnce("bytesOf", "(declare-fun bytesOf ((Array Ref Int) Slice) Bytes)")
-		h := g.heap(e.st, g.heapKeyFor(SInt), SInt)
+		h := g.heap(e.st, g.heapKeyT(types.Typ[types.Uint8]), SInt)
 		return Term{app("bytesOf", h.S, s.S), "Bytes"}, Ty{Spec: "Bytes"}
 	case "typeis":
 		v, _ := arg(0)
